@@ -440,7 +440,7 @@ def run(ctx):
     # ---- oracle on mlr's own output: dropping the absent assignments changes nothing
     oracle_bad = []
     with ctx.timed("impl"):
-        todo = [(rec, prog, res) for rec, prog, res in meta if any(absent_stmt(s) for s in prog) and res[0] == "ok"]
+        todo = [(rec, prog, res) for rec, prog, res in meta if any(absent_stmt(s) for s in prog) and not risky(prog)]
         res2 = run_all(ctx, [(rec, [s for s in prog if not absent_stmt(s)]) for rec, prog, _ in todo])
     for (rec, prog, res), r2 in zip(todo, res2):
         ctx.count(("assign-oracle", program_text(prog), tuple(rec)))
